@@ -6,7 +6,7 @@
 // tracking allocator (harness/internal/track) is mempool.DefaultMemPool and Config.BodyAllocator; a
 // recording conn collects the wire (OnComplete -> handler -> flushResponse).
 //
-//	C resp v=<10|11> m=<GET|HEAD> conn=<ka|close|none> fail=<k> sf=<0|1> mv=<0|1>
+//	C resp v=<10|11> m=<GET|HEAD> conn=<ka|close|none> fail=<k> sf=<0|1> mv=<0|1> rc=<0|1>
 //	H <hexk> <hexv>        Header().Set            A <hexk> <hexv>   Header().Add        X <hexk>  Header().Del
 //	S <code>               WriteHeader(code)       (exec annotates st=<hex of http.StatusText(code)>)
 //	W <payload>            Write                   WS <payload>      WriteString
@@ -54,6 +54,7 @@ type caseCfg struct {
 	fail int
 	sf   bool
 	mv   bool
+	rc   bool // allocator recycles freed buffers (after verifying their poison)
 }
 
 type op struct {
@@ -84,7 +85,7 @@ func field(f []string, key string) string {
 }
 
 func parseCfg(f []string) caseCfg {
-	c := caseCfg{v11: field(f, "v") != "10", head: field(f, "m") == "HEAD", conn: field(f, "conn"), sf: field(f, "sf") == "1", mv: field(f, "mv") == "1"}
+	c := caseCfg{v11: field(f, "v") != "10", head: field(f, "m") == "HEAD", conn: field(f, "conn"), sf: field(f, "sf") == "1", mv: field(f, "mv") == "1", rc: field(f, "rc") == "1"}
 	c.fail, _ = strconv.Atoi(field(f, "fail"))
 	if c.conn == "" {
 		c.conn = "none"
@@ -106,7 +107,7 @@ func (c caseCfg) String() string {
 		}
 		return 0
 	}
-	return fmt.Sprintf("C resp v=%s m=%s conn=%s fail=%d sf=%d mv=%d", v, m, c.conn, c.fail, b(c.sf), b(c.mv))
+	return fmt.Sprintf("C resp v=%s m=%s conn=%s fail=%d sf=%d mv=%d rc=%d", v, m, c.conn, c.fail, b(c.sf), b(c.mv), b(c.rc))
 }
 
 func parseOp(line string) (op, bool) {
@@ -327,6 +328,7 @@ func run(cfg caseCfg, ops []op, tr *track.Tracker, lg *nullLogger) *runOut {
 	out.sp.v11 = cfg.v11
 	tr.Reset()
 	tr.MoveOnGrow = cfg.mv
+	tr.Recycle = cfg.rc
 	var rc *track.RecConn
 	var nc net.Conn
 	if cfg.sf {
